@@ -333,6 +333,30 @@ def clock_path_taken(conds, clock, hist_len=None):
 
 def rule_repkey(fx, rep):
     b = fx.one("Game::is_repeated_position")
+    # "repeated exactly when an identical position occurred earlier since the last capture or pawn move": the verdict is a function
+    # of the game (history, key, clock) alone. A further parameter that reaches the returned value - the distance from the search
+    # root, say, to ask for a second occurrence when the first lies before the root - makes it depend on who is asking.
+    extra = []
+    for i in range(2, b.arg_count + 1):
+        sl, _recs = b.slice_back([0])
+        uses = i in sl
+        if not uses:
+            # control dependence: a branch on the parameter between entry and a return
+            for x in sorted(b.live_blocks()):
+                t = b.blocks[x]["term"]
+                if t["k"] == "switch" and "pl" in t["discr"]:
+                    sl2, _r2 = b.slice_back([t["discr"]["pl"]["l"]])
+                    if i in sl2:
+                        uses = True
+                        break
+        if uses:
+            extra.append(b.local_name(i) or f"_{i}")
+    if extra:
+        rep.obligation(False)
+        rep.violation("C11-REPKEY", "C11-REPKEY/parameter", f"`{b.name}` decides with the help of its parameter(s) {extra}: whether the current position is repeated then depends on more than the "
+                      "positions on record (an identical earlier position can be denied, e.g. until it has occurred twice before the search root)", {"fn": b.name, "file": b.file, "line": b.line})
+        rep.rule("C11-REPKEY", 1, 0, False, "the repetition verdict is a function of the game alone")
+        return
     paths = [p for p in decision_paths(b) if p[1] is not None]
     scans = []
     recognised = bool(paths)
@@ -683,6 +707,8 @@ def cond_holds(c, val, dparam, d):
 
 G = "src/chess/game.rs"
 MUTANTS = [
+    {"name": "an occurrence before the search root counts only when it is the second one (seed C11-9a)", "expect": "C11-REPKEY/parameter",
+     "edits": __import__("shared_mutants").edits_from_patch("seeded/C11-9a/patch.diff")},
     {"name": "draw tests skipped at depth 0, before the check extension (seed C11-6a)", "expect": "C11-CALLERS/conditional/negamax",
      "edits": [("src/engine/search/negamax.rs", "    if !is_root\n        && (game.is_repeated_position()", "    if !is_root\n        && depth > 0\n        && (game.is_repeated_position()")]},
     {"name": "benign: draw tests skipped at depth 0 after the check extension (those nodes go to quiescence)", "benign": True,
